@@ -26,6 +26,8 @@ pub enum Probe {
     Sub(u16, u16),
     /// an arbitrary term (present or absent)
     Fresh(Tm),
+    /// re-insert the term with exactly this index
+    Term(usize),
 }
 
 #[derive(Clone, Debug, PartialEq, Eq, Hash, Serialize, Deserialize)]
@@ -104,6 +106,7 @@ fn probe_term(c: &ProbeCase, p: &Probe, alphabet: u8) -> Option<(Tm, bool /*must
             Some((subs[idx(*j, subs.len())].clone(), true, "subterm"))
         }
         Probe::Fresh(t) => Some((t.clone(), false, "fresh")),
+        Probe::Term(i) => terms.get(*i).map(|t| (t.clone(), true, "literal")),
     }
 }
 
@@ -190,7 +193,7 @@ fn run_l<L: Language + 'static>(c: &ProbeCase, obs: &mut Obs) -> Result<(), Stri
         }
         tracked.push(a);
         obs.label(kind);
-        if kind != "literal" && kind != "fresh" && must {
+        if (kind != "literal" && kind != "fresh" && must) || (kind == "literal" && has_sym_or_red) {
             obs.nontrivial = true;
         }
     }
@@ -322,11 +325,35 @@ pub fn property(tier: Tier) -> Property {
             run,
             panic_is_violation: false,
             render,
-            rule: "a reachable e-graph (mixed history incl. rewriting) followed by probe terms: literal re-insertion, alpha-variant, free renaming, subterm replaced by a union-equal term, subterm, arbitrary term; lookup <=> add creates nothing, eq(lookup, add), lookup changes nothing, renaming equivariance; non-trivial = a non-literal variant of a represented term was probed; distinct by rendered case",
+            rule: "a reachable e-graph (mixed history incl. rewriting) followed by probe terms: literal re-insertion, alpha-variant, free renaming, subterm replaced by a union-equal term, subterm, arbitrary term; lookup <=> add creates nothing, eq(lookup, add), lookup changes nothing, renaming equivariance; non-trivial = a non-literal variant of a represented term was probed, or a literal one on an e-graph with a symmetry or a redundancy; distinct by rendered case",
             case_timeout_s: tier.pick(30, 120),
             exhaustive: false,
         }));
     }
+    stages.push(Box::new(Stage {
+        name: "probe-through-node",
+        source: Source::Enumerate(std::sync::Arc::new(move || {
+            let v: Vec<ProbeCase> = crate::props::c01::through_node_cases(tier)
+                .into_iter()
+                .chain(crate::props::c01::transfer_cases(4, false).into_iter())
+                .map(|h| {
+                    let n = h.terms().len();
+                    let ops = h.ops.iter().map(|o| match o {
+                        HOp::Add(t) => MOp::Add(t.clone()),
+                        HOp::Union(a, b) => MOp::Union(*a, *b),
+                    }).collect();
+                    ProbeCase { base: Mixed { lang: h.lang, naming: h.naming.clone(), ops, extraction_subst: false, rule_slot_variant: 0 }, probes: (0..n).map(Probe::Term).collect(), rot: 1 }
+                })
+                .collect();
+            Box::new(v.into_iter())
+        })),
+        run,
+        panic_is_violation: false,
+        render,
+        rule: "exhaustive: the symmetry-transfer and symmetry-through-a-moved-e-node families of C01/C02 as base histories; afterwards every inserted term is looked up and re-inserted (must create nothing)",
+        case_timeout_s: tier.pick(30, 120),
+        exhaustive: true,
+    }));
     stages.push(Box::new(Stage {
         name: "probe-slots",
         source: random(slots_strategy, tier.pick(4000, 80_000)),
